@@ -122,6 +122,7 @@ class Event:
     def __init__(self, callee, args, result, pc_len):
         self.callee = callee
         self.args = args
+        self.rargs = args
         self.result = result
         self.pc_len = pc_len
 
@@ -879,8 +880,21 @@ class Executor:
                     ty = None
                     if isinstance(old, Scalar):
                         st.frames[fi][n] = self.ctx.fresh_scalar(old.sort, "havoc." + n)
-        st.events.append(Event(callee, args, rv, len(st.pc)))
+        ev = Event(callee, args, rv, len(st.pc))
+        ev.rargs = [self.resolve_ref(st, a) for a in args]
+        st.events.append(ev)
         return rv
+
+    def resolve_ref(self, st, v):
+        """Follow references (at call time) down to the value they point to."""
+        n = 0
+        while isinstance(v, Ref) and n < 6:
+            try:
+                v = self.deref(st, v)
+            except (Unsupported, KeyError, IndexError):
+                break
+            n += 1
+        return v
 
     def resolve(self, callee, args):
         name = re.sub(r"::<[^(]*>$", "", callee.strip())
